@@ -1201,6 +1201,26 @@ impl Visitor<Diagnostic> for LibraryRenderer {
         Ok(())
     }
 
+    // 3.2.3
+    fn visit_named_input(
+        &mut self,
+        node: &dsl::textual::NamedInput,
+    ) -> Result<Self::Value, Diagnostic> {
+        self.visit_id(&node.name)?;
+        self.write_ws(":=");
+        self.visit_expr_kind(&node.expr)
+    }
+
+    // 3.2.3
+    fn visit_output(&mut self, node: &dsl::textual::Output) -> Result<Self::Value, Diagnostic> {
+        if node.not {
+            self.write_ws("NOT");
+        }
+        self.visit_id(&node.src)?;
+        self.write_ws("=>");
+        self.visit_variable(&node.tgt)
+    }
+
     // 3.3.2.1
     fn visit_assignment(
         &mut self,
